@@ -126,4 +126,45 @@ theorem C02_relocs_parse (img : Img) : (Relocs.parse img).Clean := by
   unfold Relocs.parse
   exact Out.clean_ite (Out.clean_ok _) (Out.clean_err _)
 
+/-! ### non-vacuity
+(The theorems above are about the unchecked model; `Thm/C02Arith.lean` proves the checked model —
+panicking arithmetic and slice primitives at the Rust sites, the one the driver runs — equal to it.) -/
+
+/-- a PE32+ file and a PE32 mapped view the constructors accept (so the `View`s the theorems range
+over exist for both formats and both kinds); a rejected buffer gives an error, not a panic -/
+example : fromBytes .pe64 .file demo64Img = .ok demo64File ∧ wrapFromBytes .file demo64Img = .ok demo64File ∧
+    fromBytes .pe32 .file demo64Img = .err .peMagic ∧
+    fromBytes .pe32 .view demoImg = .ok demoView ∧ validate .pe64 ⟨#[77, 90], 0⟩ = .err .bounds := by
+  refine ⟨demo64File_ok, C07_wrap_complete _ _ _ _ demo64File_ok,
+    fromBytes_err_of_validate (by decide +kernel),
+    (fromBytes_ok_iff _ _ _ _).2 ⟨by decide +kernel,
+      by rw [show imageBaseField .pe32 demoImg.bytes = 0x400000 by decide +kernel]; rfl⟩, by decide +kernel⟩
+
+/-- `isPow2 align` (hypothesis of `C02_slice`, `C02_read`, `C02_derva`, `C02_derva_slice`,
+`C02_derva_slice_s`) holds for the alignments of the Rust types and fails for 0, 3, 6, 12;
+`1 ≤ size` of `C02_derva_slice_s` for every integer type -/
+example : isPow2 1 = true ∧ isPow2 2 = true ∧ isPow2 4 = true ∧ isPow2 8 = true ∧ isPow2 16 = true ∧
+    isPow2 0 = false ∧ isPow2 3 = false ∧ isPow2 6 = false ∧ isPow2 12 = false ∧ 1 ≤ 2 := by decide
+
+/-- the operations on the PE32+ file: values and every error kind of the address conversions
+(answers identical to the real code's, checked with the harness) -/
+example : demo64File.rvaToFileOffset 256 = .ok 240 ∧ demo64File.rvaToFileOffset 272 = .err .zeroFill ∧
+    demo64File.rvaToFileOffset 280 = .err .bounds ∧ demo64File.fileOffsetToRva 250 = .ok 266 ∧
+    demo64File.rvaToVa 287 = .ok 5368709407 ∧ demo64File.vaToRva 0 = .err .null ∧
+    demo64File.slice 256 0 1 = .ok ⟨240, 16, 1⟩ ∧ demo64File.slice 271 2 1 = .err .zeroFill ∧
+    demo64File.read 0x140000100 4 4 = .ok ⟨240, 16, 4⟩ ∧ demo64File.derva (.rva 257) 4 4 = .err .misaligned ∧
+    demo64File.dervaSliceS (.rva 260) 2 2 0x1234 = .err .bounds ∧
+    demo64File.sectionBytes ⟨0, 0, 24, 256, 16, 240, 0⟩ = .ok ⟨240, 16, 1⟩ := by
+  decide +kernel
+
+/-- `C02_slice_panics_only_if` is about something that happens: alignment 3 on the PE32 view -/
+example : demoView.slice 184 0 3 = .panic "slice_section:aligned_to" ∧ demoView.slice 0 0 3 = .err .null := by
+  decide +kernel
+
+/-- `C02_strings`: a configuration with thresholds ≥ 1 and a buffer with two qualifying runs -/
+example : (1 ≤ (⟨3, 3, false⟩ : Strings.Config).minLen ∧ 1 ≤ (⟨3, 3, false⟩ : Strings.Config).minLenNul) ∧
+    Strings.enumAll #[0x1f, 0x43, 0x2d, 0x53, 0x54, 0x00, 0x80, 0x41, 0x41, 0x41, 0xff] ⟨3, 3, false⟩ 13 0 =
+      .ok [⟨1, 4, true⟩, ⟨7, 3, false⟩] := by
+  decide +kernel
+
 end Pelite.Pe
